@@ -37,9 +37,17 @@ inline double control_static_work(std::function<double(std::vector<double> const
     return r + work[0];
 }
 
+
+// C06-D15.accepts: a reader that rejects restored floating point data by comparing two of the values (the writer never promised that order)
+inline void control_value_guard(std::vector<double> const &a, std::vector<double> const &b){
+    for(size_t j=0; j<a.size(); j++)
+        if (!(a[j] < b[j])) throw std::runtime_error("not an interval");
+}
+
 }
 
 int verif_controls_anchor(){
     return VerifControls::control_reopen("a", "b")
-         + static_cast<int>(VerifControls::control_static_work([](std::vector<double> const &w)->double{ return w[0]; }, 2));
+         + static_cast<int>(VerifControls::control_static_work([](std::vector<double> const &w)->double{ return w[0]; }, 2))
+         + (VerifControls::control_value_guard({0.0}, {1.0}), 0);
 }
